@@ -286,15 +286,15 @@ func genSeq(r *rand.Rand, thorough bool, sameName ...string) seqCase {
 	for _, s := range pool[:min(len(pool), n1+add)] {
 		switch r.IntN(20) {
 		case 0, 1, 2, 3, 4:
-			sc.Pre[s.Name] = "uncontrolled"
+			sc.Pre[s.Kind+"/"+s.Name] = "uncontrolled"
 		case 5, 6, 7:
-			sc.Pre[s.Name] = "plainowned"
+			sc.Pre[s.Kind+"/"+s.Name] = "plainowned"
 		}
 	}
 	if r.IntN(100) < 35 {
 		// one object only rev2 ships cannot be taken over
 		sc.Blocker = pick(r, []string{"otherpkg", "otherpkg", "foreignctl", "rejected-absent", "rejected-existing"})
-		sc.BlockOn = pool[n1].Name
+		sc.BlockOn = pool[n1].Kind + "/" + pool[n1].Name // kind-qualified: objects of different kinds may share a name
 		delete(sc.Pre, sc.BlockOn)
 	}
 	if r.IntN(2) == 0 {
@@ -377,7 +377,7 @@ func (sc *seqCase) prepare(c *kit.Ctx, name string, desc any, seed uint64) *exec
 	sort.Strings(names)
 	byName := map[string]objSpec{}
 	for _, s := range append(append([]objSpec{}, sc.S1...), sc.S2...) {
-		byName[s.Name] = s
+		byName[s.Kind+"/"+s.Name] = s
 	}
 	for _, n := range names {
 		if s, ok := byName[n]; ok {
